@@ -36,6 +36,7 @@ VERUS_FLAGS = ["--multiple-errors", "50", "--triggers-mode", "silent", "--output
 OBLIGATION_MSG = [
     (re.compile(r"^postcondition not satisfied"), "ensures"),
     (re.compile(r"^precondition not satisfied"), "call-requires"),
+    (re.compile(r"^requires not satisfied"), "assert"),          # the `requires` of an `assert ... by(..) requires ..` hint
     (re.compile(r"^invariant not satisfied at end of loop body"), "invariant-preserved"),
     (re.compile(r"^invariant not satisfied before loop"), "invariant-established"),
     (re.compile(r"^loop invariant not satisfied"), "invariant"),
@@ -591,9 +592,9 @@ def check_property(pid, tier, seed):
         for r in results:
             if r.get("stubbed"):
                 for fid in r["stubbed"]["functions"]:
-                    fprops = next((f["props"] for f in r["meta"]["functions"] if f["id"] == fid), [])
-                    if pid in fprops:
-                        stubbed_rel.append((fid, r["stubbed"]["reason"]))
+                    # conservative: the contract of a stubbed function is an unchecked assumption of this run, and any
+                    # function of the unit may rely on it -> every property served by the unit is affected
+                    stubbed_rel.append((fid, r["stubbed"]["reason"]))
         if stubbed_rel:
             cov["functions_not_verified_in_this_run"] = [{"fn": f, "reason": why[:300]} for (f, why) in stubbed_rel]
             decided = [f for f in relevant_fail if (f["fn"] or "") not in [x[0] for x in stubbed_rel]]
@@ -641,7 +642,13 @@ def check_property(pid, tier, seed):
         if not relevant_fail:
             can = {}
             for u in cfg["units"]:
-                can[u] = canary_futs[u].result()
+                try:
+                    can[u] = canary_futs[u].result()
+                except Inconclusive as ce:
+                    if any(r["unit"] == u and (r.get("lenient") or r.get("stubbed")) for r in results):
+                        can[u] = {"skipped": "canary file could not be processed after lost anchors / stubbing: %s" % str(ce)[:200], "vacuous": []}
+                        continue
+                    raise
                 if can[u]["vacuous"]:
                     raise Inconclusive("vacuity guard: `ensures false` verified for %s in unit %s (contradictory precondition or shim?)" % (can[u]["vacuous"], u))
             cov["vacuity_canary"] = can
